@@ -770,6 +770,12 @@ class _Judge:
         # 4 -- groups that exist on one side only for a nameable reason
         if agg_like and r.index.nlevels >= min(self.nkeys, e.index.nlevels) and r.index.nlevels == e.index.nlevels:
             rn, en = _na_key_mask(r, self.nkeys), _na_key_mask(e, self.nkeys)
+            if rn.any() != en.any():
+                # only when the NA group is the whole difference in the key sets
+                rk0 = {k for k, m_ in zip(_key_tuples(r, self.nkeys), rn) if not m_}
+                ek0 = {k for k, m_ in zip(_key_tuples(e, self.nkeys), en) if not m_}
+                if rk0 != ek0:
+                    rn = en = rn & False
             if rn.any() and not en.any():
                 self.report("na-keys&dropna!=False", "extra-NA-group",
                             "%d result rows carry an NA group key, pandas has none (dropna=%r)" % (rn.sum(), f["dropna"]))
@@ -784,7 +790,7 @@ class _Judge:
                 if dup and set(rk) == set(_key_tuples(e, self.nkeys)):
                     if f["neg-zero-key"] and all(any(isinstance(v, float) and v == 0 for v in k) for k in dup):
                         self.report("key-has-0.0-and-negative-0.0&shuffle", "groups-duplicated",
-                                    "groups %s appear more than once (0.0 and -0.0 are one pandas group)" % sorted(dup)[:4],
+                                    "groups %s appear more than once (0.0 and -0.0 are one pandas group)" % sorted(dup, key=repr)[:4],
                                     fam="agg-any")
                         return
                     if f["dropna"] is False and all("<NA>" in k for k in dup):
